@@ -44,6 +44,10 @@ type Mut struct {
 	TXID    uint64   `json:"txid,omitempty"`
 	TS      int64    `json:"ts_ms,omitempty"`
 	MustErr string   `json:"must_err,omitempty"` // expectation derived from the remaining files: why success would be wrong
+	// stale-tmp: before the restore a leftover <output>.tmp (what a SIGKILLed restore leaves) is planted, plus
+	// junk <output>-wal, <output>-shm, <output>.tmp-wal; restore target as for disk-delete-set (TXID / TS).
+	TmpKind string `json:"tmp_kind,omitempty"` // image (a larger previously restored image) | random | sqlite (a valid larger database)
+	TmpRel  string `json:"tmp_rel,omitempty"`  // longer | equal | shorter — than the database about to be restored
 }
 
 type RestoreCase struct {
@@ -227,6 +231,7 @@ func restoreErrKind(err error) string {
 }
 
 var sentinel = []byte("pre-existing output that must never be touched\n")
+var staleJunk = []byte("stale sidecar left behind by a killed process\n")
 
 func exists(p string) bool { _, err := os.Lstat(p); return err == nil }
 
@@ -237,6 +242,7 @@ type workerReq struct {
 	Plan   []planID `json:"plan"` // pristine plan
 	Mut    Mut      `json:"mut"`
 	OutDir string   `json:"out_dir"`
+	Plant  string   `json:"plant,omitempty"` // stale-tmp: file holding the bytes to plant at <output>.tmp
 }
 type planID struct {
 	Level    int `json:"level"`
@@ -257,6 +263,31 @@ func doRestore(q workerReq) workerResp {
 	m := q.Mut
 	if strings.HasPrefix(m.Kind, "disk-") {
 		return doDiskRestore(q, out)
+	}
+	if m.Kind == "stale-tmp" {
+		b, err := os.ReadFile(q.Plant)
+		if err != nil {
+			return workerResp{Err: "HARNESS: " + err.Error()}
+		}
+		for p, c := range map[string][]byte{out + ".tmp": b, out + "-wal": staleJunk, out + "-shm": staleJunk, out + ".tmp-wal": staleJunk} {
+			if err := os.WriteFile(p, c, 0o644); err != nil {
+				return workerResp{Err: "HARNESS: " + err.Error()}
+			}
+		}
+		r := litestream.NewReplicaWithClient(nil, file.NewReplicaClient(q.Dir))
+		opt := litestream.NewRestoreOptions()
+		opt.OutputPath = out
+		opt.TXID = ltx.TXID(m.TXID)
+		if m.TS != 0 {
+			opt.Timestamp = time.UnixMilli(m.TS).UTC()
+		}
+		opt.IntegrityCheck = litestream.IntegrityCheckMode(m.Integrity)
+		rerr := r.Restore(context.Background(), opt)
+		resp := workerResp{OK: rerr == nil}
+		if rerr != nil {
+			resp.Err = rerr.Error()
+		}
+		return resp
 	}
 	fc := &faultClient{ReplicaClient: file.NewReplicaClient(q.Dir), mut: m}
 	if m.Kind != "none" && m.Kind != "preexist" && m.File < len(q.Plan) {
@@ -396,6 +427,18 @@ func inspect(m Mut, outDir string, want []byte, resp *workerResp, crash string) 
 		o.Tmp = "present"
 	}
 	o.Wal, o.Shm = exists(out+"-wal"), exists(out+"-shm")
+	if m.Kind == "stale-tmp" {
+		// planted sidecars that are still exactly the planted junk are pre-existing, untouched files
+		if b, err := os.ReadFile(out + "-wal"); err == nil && bytes.Equal(b, staleJunk) {
+			o.Wal = false
+		}
+		if b, err := os.ReadFile(out + "-shm"); err == nil && bytes.Equal(b, staleJunk) {
+			o.Shm = false
+		}
+		if rerr == nil && want != nil && !bytes.Equal(got, want) {
+			o.Out = fmt.Sprintf("WRONG(%d bytes, reference image has %d)", len(got), len(want))
+		}
+	}
 	return o
 }
 
